@@ -8,3 +8,6 @@ pub(crate) use self::{
     group::Group,
     tag::{Tag, TagSliceExt},
 };
+
+#[cfg(feature = "verif-hooks")]
+pub(crate) mod verif;
